@@ -6,7 +6,8 @@ from gen import sources
 from vlib import hx, unhx, fields, lst, files_req
 
 C03_THMS = ['Theo.C03_checker_sound', 'Theo.C03_wfCheck_sound', 'Theo.C03_structure']
-C16_THMS = ['Theo.C16_calls_go_down', 'Theo.C16_stack_bounded', 'Theo.C16_stack_bounded_wf']
+C16_THMS = ['Theo.C16_calls_go_down', 'Theo.C16_stack_bounded', 'Theo.C16_stack_bounded_wf',
+            'Theo.C16_loop_source_halts', 'Theo.C16_loop_halts', 'Theo.C16_loop_iterations', 'Theo.C16_toSource_distinctLoopIds']
 C01_THMS = ['Theo.C01_never_stuck', 'Theo.C01_halts_same_values', 'Theo.C01_diverges']
 C07_THMS = ['Theo.C07_step_trace', 'Theo.C07_no_extra_stops', 'Theo.C07_stepping_stops_at_sites']
 
@@ -21,6 +22,8 @@ def envs(acts, keep_counters=False):
             k = unhx(k).decode('latin1')
             if k.startswith('Loop Variable') and not keep_counters:
                 continue
+            if k.startswith('#'):
+                continue          # macro temporaries are not user variables
             d[k] = int(v)
         out.append((unhx(name).decode('latin1'), d))
     return out
@@ -40,13 +43,23 @@ def same_envs(a, b):
 
 MACRO_LIB = ("DEFINE PRIO 30 <ID> ( <ARGS> ) AS RUN $0 WITH $1 END END DEFINE\n"
              "DEFINE PRIO 5 ZERO <ID> AS $0 := 0 END DEFINE\n"
-             "DEFINE PRIO 5 TWICE { <P> } AS #0 := 2; LOOP #0 DO $0 END END DEFINE\n")
+             "DEFINE PRIO 5 TWICE { <P> } AS #0 := 2; LOOP #0 DO $0 END END DEFINE\n"
+             # LOOP through a temporary: the bound is copied at entry, so what the body does to the temporary is irrelevant
+             "DEFINE PRIO 5 REPN <ID> { <P> } AS #0 := $0; LOOP #0 DO $1 END END DEFINE\n"
+             "DEFINE PRIO 5 REPZ <ID> { <P> } AS #0 := $0; LOOP #0 DO $1; #0 := 0 END END DEFINE\n"
+             "DEFINE PRIO 5 REPUP <ID> { <P> } AS #0 := $0; LOOP #0 DO #0 := #0 + 1; $1 END END DEFINE\n")
 
 
 def has_zero_call(v):
     if v[0] != 'call':
         return False
     return (not v[2]) or any(has_zero_call(a) for a in v[2])
+
+
+def has_zero_call_anywhere(v):
+    if v[0] != 'call':
+        return False
+    return (not v[2]) or any(has_zero_call_anywhere(a) for a in v[2])
 
 
 def pv_macro(v):
@@ -59,12 +72,12 @@ def pv_macro(v):
     return sources.pv(v)
 
 
-def gen_programs(ctx, n, big=False, layouts=('canonical', 'random', 'multi', 'macro', 'reentry', 'canonical_multi')):
+def gen_programs(ctx, n, big=False, layouts=('canonical', 'random', 'multi', 'macro', 'reentry', 'canonical_multi'), looponly=False):
     """sources with their typed form; returns list of dicts {defs, main, main_file, files, layout, L}"""
     r = ctx.rnd
     out = []
     for _ in range(n):
-        g = sources.Gen(r, big=big)
+        g = sources.Gen(r, big=big, looponly=looponly)
         lay = r.choice(layouts)
         defs, main = sources.reentry_program(r) if lay == 'reentry' else g.program()
         L = None
@@ -81,7 +94,22 @@ def gen_programs(ctx, n, big=False, layouts=('canonical', 'random', 'multi', 'ma
             files = {k.encode(): sources.text_of_tokens(v, r).encode() for k, v in fl.items()}
         else:
             # macro layer: calls with arguments go through a user macro defined in an included library
-            text, L0 = sources.canonical(defs, main, r, pv=pv_macro)
+            fmt = {}
+
+            def zero_call_in(ss):
+                for st in ss:
+                    if st[0] == 'assign' and has_zero_call_anywhere(st[2]):
+                        return True
+                    if st[0] in ('loop', 'while') and zero_call_in(st[2]):
+                        return True
+                return False
+
+            def loopfmt(st):
+                if st[-1] not in fmt:
+                    # the detector grammar's <P> cannot derive a RUN without arguments: such bodies stay in LOOP syntax
+                    fmt[st[-1]] = None if zero_call_in(st[2]) else r.choice([None, None, 'REPN', 'REPZ', 'REPUP'])
+                return fmt[st[-1]]
+            text, L0 = sources.canonical(defs, main, r, pv=pv_macro, loopfmt=loopfmt)
             files = {b'm': b'include "lib"\n' + text.encode(), b'lib': MACRO_LIB.encode()}
         out.append({'defs': defs, 'main': main, 'mainf': b'm', 'files': files, 'layout': lay, 'L': L,
                     'text': {k.decode(): v.decode('latin1') for k, v in files.items()}})
@@ -158,11 +186,13 @@ def check_C03(ctx):
 
 
 def check_C16(ctx):
-    build_all(ctx, ['Theo.Props.C16'], C16_THMS)
+    build_all(ctx, ['Theo.Props.C16', 'Theo.Props.C16Loop'], C16_THMS)
     if ctx.harness is None:
         return finish(ctx)
     r = ctx.rnd
-    cases = gen_programs(ctx, ctx.n(500, 5000), layouts=('canonical', 'random', 'multi'))
+    cases = gen_programs(ctx, ctx.n(350, 3500), layouts=('canonical', 'random', 'multi', 'macro'))
+    # sources without WHILE / GOTO, loops that assign their own bound, half of them written through macros that loop over a temporary
+    cases += gen_programs(ctx, ctx.n(250, 2500), layouts=('canonical', 'macro', 'macro'), looponly=True)
     # attempts at self / forward / mutual reference, across files and redefinitions
     bad = [
         "PROGRAM f IN a DO x0 := RUN f WITH a END END\nx1 := RUN f WITH 1 END\n",
@@ -229,6 +259,12 @@ def check_C16(ctx):
             status, m = sources.reference(c['defs'], c['main'], 400000)
             if status == 'done' and fr['done'] != '1':
                 ctx.violation('loop-program-does-not-halt', 'a source without WHILE / GOTO did not halt within 3 000 000 instructions (reference: %d steps)' % m.steps, c['text'])
+            if status == 'done' and fr['done'] == '1':
+                # the iteration counts are those of the bounds at entry: final values equal the reference's
+                names = [(c['defs'][k][0] if k != 'root' else '#root') for (k, _) in m.final]
+                ref = list(zip(names, [e for (_, e) in m.final]))
+                if not same_envs(envs(fr['acts']), ref):
+                    ctx.violation('loop-iterations', 'a LOOP-only source ends with %s; with every LOOP iterating as often as its bound says at entry it ends with %s' % (envs(fr['acts']), ref), c['text'])
             if status == 'done':
                 ctx.nontrivial(repr(c['text']))
         o = val.get(i)
